@@ -81,7 +81,7 @@ fn round_strategy(excl_width: bool) -> BoxedStrategy<Round> {
 }
 
 fn case_strategy(excl_same_name: bool, excl_width: bool) -> BoxedStrategy<Case> {
-    (prop::collection::vec((round_strategy(excl_width), 0u64..3), 1..=3), prop::bool::weighted(if excl_same_name { 0.0001 } else { 0.25 }))
+    (prop::collection::vec((round_strategy(excl_width), 0u64..3), 1..=3), prop::bool::weighted(0.25))
         .prop_map(move |(rounds, restart_ids)| {
             // a WAL directory normally keeps counting: the ids of a later cleanup continue after the earlier
             // ones. With `restart_ids` the ids start again (the directory had become empty), which can give a
@@ -89,7 +89,18 @@ fn case_strategy(excl_same_name: bool, excl_width: bool) -> BoxedStrategy<Case> 
             let mut out: Vec<Round> = vec![];
             let mut next = 0u64;
             for (i, (mut r, gap)) in rounds.into_iter().enumerate() {
-                if i > 0 && !(restart_ids && !excl_same_name) {
+                if i > 0 && restart_ids && excl_same_name {
+                    // ids start again, but (open finding: an equal archive NAME overwrites the older archive) every later
+                    // log gets a time range of its own, so that only the log id repeats and the names stay distinct
+                    for f in r.files.iter_mut() {
+                        if f.entries.is_empty() {
+                            f.entries.push(Entry { ts: 1_700_000_000, ctx: "z".into(), ty: "ta".into(), payload: json!({}), event_id: 2_000_000_000 + (i as u64) * 1000 + f.id });
+                        }
+                        for e in f.entries.iter_mut() {
+                            e.ts += 100 * i as u64;
+                        }
+                    }
+                } else if i > 0 && !restart_ids {
                     let first = r.files.first().map(|f| f.id).unwrap_or(0);
                     let shift = next + gap;
                     for f in r.files.iter_mut() {
